@@ -265,6 +265,21 @@ def e_laser(c):
     np.random.seed(c["seed"])
     E2 = lib(D.LASER, t, c["p"], c["lw"], rin, df)
     check(np.array_equal(E.signal, E2.signal), "laser-not-reproducible-under-seed", "")
+    # the frequency-offset term is a pure rotation exp(j*2*pi*df*t), whatever the other terms are (same seed, df omitted)
+    np.random.seed(c["seed"])
+    E0 = lib(D.LASER, t, c["p"], c["lw"], rin, None)
+    rot = np.exp(2j * np.pi * df * t)
+    check(np.allclose(E.signal, E0.signal * rot, rtol=1e-9, atol=1e-12 * np.sqrt(P)), "laser-offset-term-not-a-rotation-by-df",
+          f"lw={c['lw']} rin={rin} df={df:.4g}: max dev {np.max(np.abs(E.signal - E0.signal * rot)):.3e}")
+    # phase noise alone is a pure rotation of the CW field
+    np.random.seed(c["seed"])
+    Ecw = lib(D.LASER, t, c["p"], None, None, None)
+    np.random.seed(c["seed"])
+    Elw = lib(D.LASER, t, c["p"], c["lw"], None, None)
+    check(np.allclose(np.abs(Elw.signal), np.abs(Ecw.signal), rtol=1e-12, atol=0), "laser-phase-noise-changes-power", "")
+    if c["lw"] is not None and rin is None and np.sqrt(2 * np.pi * c["lw"] * n / fs) <= 0.3:
+        pk = int(np.argmax(np.abs(np.fft.fft(E.signal))))
+        check(pk == c["k"] % n, "laser-spectral-peak!=df", f"narrow linewidth {c['lw']:.3g} Hz: k={c['k']} peak bin {pk}")
     raises(ValueError, D.LASER, t, c["p"], None, None, c["beyond"] * fs / 2, tag="laser-offset-beyond-nyquist-accepted")
     raises(ValueError, D.LASER, t, c["p"], None, None, -c["beyond"] * fs / 2, tag="laser-offset-beyond-nyquist-accepted")
     g.verify()
